@@ -666,6 +666,45 @@ func runHistory(h history, emit emitFn, hidx int) []string {
 	var lastRegion int = -1
 	tfCtx := false // the tiflash engine context of the scatterer exists
 	var lastFinal *sim10.State
+	// Go-side copy of the monitor's core clauses (peer count, count per role, one peer per store), so that a concrete
+	// replay is reported even when the Coq side cannot run (lost translator anchor, broken model build)
+	goMonitor := func(name string, region *core.RegionInfo, tr *sim10.Trace, what string) []res.Violation {
+		if tr.Err != "" {
+			return []res.Violation{{Sig: "C11:" + name + ":unsafe-step", Desc: tr.Err + " in " + what, Replay: h}}
+		}
+		before, after := sim10.FromRegion(region), tr.Final()
+		cb, ca := map[metapb.PeerRole]int{}, map[metapb.PeerRole]int{}
+		for _, p := range before.Peers {
+			cb[p.Role]++
+		}
+		seen := map[uint64]bool{}
+		dup := false
+		for _, p := range after.Peers {
+			ca[p.Role]++
+			dup = dup || seen[p.Store]
+			seen[p.Store] = true
+		}
+		clause := ""
+		switch {
+		case len(after.Peers) < len(before.Peers):
+			clause = "replica-lost"
+		case len(after.Peers) > len(before.Peers):
+			clause = "replica-added"
+		case dup:
+			clause = "two-peers-on-one-store"
+		default:
+			for _, ro := range []metapb.PeerRole{metapb.PeerRole_Voter, metapb.PeerRole_Learner, metapb.PeerRole_IncomingVoter, metapb.PeerRole_DemotingVoter} {
+				if cb[ro] != ca[ro] {
+					clause = "role-count-changed"
+				}
+			}
+		}
+		if clause == "" {
+			return nil
+		}
+		return []res.Violation{{Sig: "C11:" + name + ":" + clause, Replay: h,
+			Desc: fmt.Sprintf("region %d %s -> %s by %s", region.GetID(), sim10.CoqPeers(before.Peers), sim10.CoqPeers(after.Peers), what)}}
+	}
 	anomalies := func(tr *sim10.Trace, what string) []res.Violation {
 		var v []res.Violation
 		for _, a := range tr.Anomalies {
@@ -735,7 +774,7 @@ func runHistory(h history, emit emitFn, hidx int) []string {
 			if op != nil {
 				var tr *sim10.Trace
 				opS, tr = coqOp(region, op)
-				viol = anomalies(tr, sim10.Summary(op))
+				viol = append(anomalies(tr, sim10.Summary(op)), goMonitor("scatter", region, tr, sim10.Summary(op))...)
 				f := tr.Final()
 				lastFinal, lastRegion = &f, a.Region
 				summary = sim10.Summary(op)
@@ -763,7 +802,7 @@ func runHistory(h history, emit emitFn, hidx int) []string {
 				opS, tr := coqOp(region, cr.op)
 				coq := fmt.Sprintf("(Case SScatterConc\n   %s\n   %s %s\n   %s\n   None)", stores, labels, coqRegion(region), opS)
 				log = append(log, fmt.Sprintf("concurrent scatter (seed %d) region %d %v -> %s", a.Seed, region.GetID(), sim10.StoresOf(sim10.FromRegion(region)), sim10.Summary(cr.op)))
-				emit(coq, coq, true, []string{"conc:operator"}, anomalies(tr, sim10.Summary(cr.op)))
+				emit(coq, coq, true, []string{"conc:operator"}, append(anomalies(tr, sim10.Summary(cr.op)), goMonitor("scatter-concurrent", region, tr, sim10.Summary(cr.op))...))
 			}
 			lastFinal = nil
 		case "schedule":
@@ -837,7 +876,7 @@ func runHistory(h history, emit emitFn, hidx int) []string {
 					opS, tr := coqOp(region, op)
 					coq := fmt.Sprintf("(Case %s\n   %s\n   %s %s\n   %s\n   None)", coqSched(op.Desc(), a.Sched), caseStores, labels, coqRegion(region), opS)
 					log = append(log, fmt.Sprintf("schedule %s %v -> region %d: %s", a.Sched, a.Args, region.GetID(), sim10.Summary(op)))
-					emit(coq, coq, true, []string{"sched:" + a.Sched + ":operator", "op:" + op.Desc()}, anomalies(tr, sim10.Summary(op)))
+					emit(coq, coq, true, []string{"sched:" + a.Sched + ":operator", "op:" + op.Desc()}, append(anomalies(tr, sim10.Summary(op)), goMonitor(a.Sched, region, tr, sim10.Summary(op))...))
 				}
 			}
 			if got == 0 {
@@ -866,7 +905,11 @@ func main() {
 		"(a) scatter histories: 0-3 earlier decisions recorded with RegionScatterer.Put, then 3-12 Scatter calls over three groups, every second result installed in the " +
 		"cluster; counters read before and after every call through the verif hook; one case per accepted Scatter call; (b) scheduler histories: 2-4 Schedule() calls of " +
 		"balance-region / balance-leader / shuffle-region / shuffle-leader / evict-leader / grant-leader / label / scatter-range / shuffle-hot-region / hot-region; one case " +
-		"per returned operator. non-trivial = every emitted case (a Scatter call that was accepted, or a returned operator); refused calls and empty schedules are " +
+		"per returned operator; (c) learner classes (every 6th history): regions with 2-3 tiflash learners on 3-4 tiflash stores, or a rule learner on an ordinary " +
+		"store, scatter histories with recorded decisions (tiflash stores included once the engine context exists); (d) concurrent phase (every 6th history): " +
+		"2-4 goroutines call Scatter for different regions on ONE RegionScatterer; a cluster wrapper parks them wherever the scatterer asks for a region's stores / " +
+		"fit and a seeded scheduler picks who continues (one runs at a time); every operator goes through the per-operator monitor (also evaluated on the Go side). " +
+		"non-trivial = every emitted case (a Scatter call that was accepted, or a returned operator); refused calls and empty schedules are " +
 		"counted in the histogram only; distinct by sha256 of the Coq term"
 	cf := &coqfmt.CaseFile{Dir: *out, Prefix: "C11", PerFile: 60,
 		Header: "From PDV Require Import lib.C10_Cluster model.C11_Scatter.\nLocal Open Scope string_scope.\nLocal Open Scope Z_scope.\n",
